@@ -145,6 +145,31 @@ def task_sort_key(pr, repo):
     pr.explore(ex, thunk, 'sort_atoms_key')
 
 
+def task_intrinsic(pr, repo):
+    """IP: the intrinsic pKa counts the side-chain determinants of NON-titratable partners, whatever residue number and chain the
+    partner carries (labels with 1-4 digit and negative numbers: 'ASP1025 A', 'HIS-100 B')."""
+    from . import C02
+    ex = Executor(repo)
+    fi = repo.func('propka.group.Group.calculate_intrinsic_pka')
+    pr.under_contract(fi)
+    titr = ['ASP', 'GLU', 'LYS', 'ARG', 'HIS', 'CYS', 'TYR', 'C-', 'N+']
+    other = ['SER', 'THR', 'ASN', 'GLN', 'TRP', 'AMD', 'ROH']
+    for num in ('   7', '  25', ' 125', '1025', ' -50', '-100', '9999'):
+        def thunk(ex, ctx, num=num):
+            g = C02.mkgroup(repo, 'g', (0, 1, 0), label='GLU  10 A')
+            g.attrs['intrinsic_pka'] = None
+            want = g.attrs['model_pka'] + g.attrs['energy_volume'] + g.attrs['energy_local'] + g.attrs['determinants']['backbone'][0].attrs['value']
+            for i, rt in enumerate(titr + other):
+                d = C02.mkdet(repo, 'd%d' % i, label='%-3s%s A' % (rt, num))
+                g.attrs['determinants']['sidechain'].append(d)
+                if rt in other:
+                    want = want + d.attrs['value']
+            ex.call_function(fi, [], self_obj=g)
+            ctx.oblige('IP[residue number field %r]: intrinsic pKa = model + desolvation + backbone + side-chain determinants of the '
+                       'non-titratable partners only' % num, g.attrs['intrinsic_pka'] == want)
+        pr.explore(ex, thunk, 'calculate_intrinsic_pka %r' % num)
+
+
 def run(pr, repo):
     pr.level = 'other'
     pr.explanation = ('deductive core (VC + frame census) plus bounded relabelling monitor; level "other" because the insertion-code '
@@ -154,7 +179,7 @@ def run(pr, repo):
     pr.parallel([(task_same_residue, ()), (task_eq_label, ()), (task_sort_key, ()), (C05.task_set_determinants, ()),
                  (C05.task_iterative, ()), (C08.task_average_twins, ()),
                  # bonds and disulfide flags are decided by elements and distance only - residue labels are symbolic there
-                 (C11.task_boxes_pair, ('S', 'S', False, (0,))), (C11.task_boxes_pair, ('C', 'N', False, (0,)))])
+                 (C11.task_boxes_pair, ('S', 'S', False, (0,))), (C11.task_boxes_pair, ('C', 'N', False, (0,))), (task_intrinsic, ())])
     for f, allowed in READERS.items():
         frames.clause(pr, repo, 'readers of .%s are the declared ones' % f, f, 'readers', allowed)
     pr.assumptions += ['atom order (changed by relabelling through the sort key) only permutes commutative sums: A-REAL',
@@ -197,7 +222,10 @@ def bounded(pr):
         cm = {c: chr(ord('P') + i) for i, c in enumerate(chains)}
         edits = [('chains renamed', dict(chain_map=cm)),
                  ('numbers shifted per chain (+1000 / -500)', dict(shift={c: (1000 if i % 2 == 0 else -500) for i, c in enumerate(chains)})),
-                 ('renamed and shifted', dict(chain_map=cm, shift={c: 37 * (i + 1) for i, c in enumerate(chains)}))]
+                 ('renamed and shifted', dict(chain_map=cm, shift={c: 37 * (i + 1) for i, c in enumerate(chains)})),
+                 # small shifts: residues take over the printed labels other residues had in the run before
+                 ('numbers shifted by -20', dict(shift={c: -20 for c in chains})),
+                 ('numbers shifted by +1 / -1', dict(shift={c: (1 if i % 2 == 0 else -1) for i, c in enumerate(chains)}))]
         if len(chains) > 1:
             a, b = chains[0], chains[1]
             last_a = max(int(l[22:26]) for l in lines if l[:6] == 'ATOM  ' and l[21] == a)
@@ -219,8 +247,11 @@ def bounded(pr):
                         d.append('%s: %d vs %d groups' % (conf, len(a), len(b)))
                         continue
                     # groups keep file order within a chain; compare as multisets of (type, values) per conformation
-                    ka = sorted((g['type'], round(g['pka'], 6), round(g['evol'], 6), round(g['buried'], 6)) for g in a)
-                    kb = sorted((g['type'], round(g['pka'], 6), round(g['evol'], 6), round(g['buried'], 6)) for g in b)
+                    def key(g):
+                        return (g['type'], round(g['pka'], 6), round(g['evol'], 6), round(g['buried'], 6), g['coupled'] > 0,
+                                g['reported'], g['discarded'])
+                    ka = sorted(map(key, a), key=repr)
+                    kb = sorted(map(key, b), key=repr)
                     diff = [x for x, y in zip(ka, kb) if x != y]
                     if diff:
                         d.append('%s: %d group value tuples differ, e.g. %r' % (conf, len(diff), diff[0]))
@@ -230,5 +261,5 @@ def bounded(pr):
                 viol.append({'what': '%s, %s: %s' % (name, what, d[:2]), 'replay': None})
     pr.bounded.append({'name': 'C06-monitor: relabelling on real runs', 'evaluations': ev, 'distinct_nontrivial': len(classes),
                        'bound': '%d structures x up to 4 relabellings' % len(names),
-                       'rule': 'pKa, desolvation and buried values of all groups compared as multisets per conformation (6 decimals)',
+                       'rule': 'pKa, desolvation, buried value, coupled mark, reported flag and discard reason of all groups compared as multisets per conformation (6 decimals)',
                        'violations': viol})
